@@ -151,12 +151,55 @@ func (x *Exec) model(st *State, fr *Frame, dst ssa.Value, callee *ssa.Function, 
 		x.interfere(st, "WaitGroup.Wait")
 		st.Assume(Eq(Select(st.ghostArr("wg", SInt), r), IntLit(0)))
 		st.Trace = append(st.Trace, "wg.Wait returns")
+	case "context.WithCancel", "context.WithTimeout", "context.WithDeadline":
+		// fresh child context; the returned cancel function cancels exactly it (ASSUMED model of package context)
+		x.note("ASSUMED model of context." + callee.Name() + ": fresh child context inheriting the parent's values; the returned function cancels that child; a child of a cancelled parent is cancelled")
+		parent := args[0]
+		x.nilCheck(st, parent, "context-parent", pos)
+		c := st.newRef("ctx")
+		canc := st.ghostArr("cancelled", SBool)
+		st.setGhostArr("cancelled", Store(canc, c, Select(canc, parent.Term)))
+		k := BoundVar("k", SInt)
+		st.Assume(Forall([]*Term{k}, Eq(UF("spec$message.ctxval", SInt, c, k), UF("spec$message.ctxval", SInt, parent.Term, k))))
+		st.Assume(Eq(UF("spec$stdlib.ctxparent", SInt, c), parent.Term))
+		if len(args) > 1 && args[1].Term != nil && args[1].Term.Sort == SInt {
+			st.Assume(Eq(UF("spec$stdlib.ctxtimeout", SInt, c), args[1].Term))
+		}
+		cf := st.newRef("cancelfn")
+		st.CancelFns = copyCancel(st.CancelFns)
+		st.CancelFns[cf.Op] = c
+		if dst != nil {
+			fr.Regs[dst] = &Val{T: dst.Type(), Fields: []*Val{{T: parent.T, Term: c}, {T: callee.Signature.Results().At(1).Type(), Term: cf}}}
+		}
+		return true
 	default:
 		return false
 	}
 	if dst != nil {
 		fr.Regs[dst] = &Val{T: dst.Type(), Fields: []*Val{}}
 	}
+	return true
+}
+
+func copyCancel(m map[string]*Term) map[string]*Term {
+	n := map[string]*Term{}
+	for k, v := range m {
+		n[k] = v
+	}
+	return n
+}
+
+// callCancel: a call through a function value that is a known context cancel function.
+func (x *Exec) callCancel(st *State, fv *Val) bool {
+	if fv.Term == nil || fv.Term.Kind != kConst {
+		return false
+	}
+	c, ok := st.CancelFns[fv.Term.Op]
+	if !ok {
+		return false
+	}
+	st.setGhostArr("cancelled", Store(st.ghostArr("cancelled", SBool), c, True))
+	st.Trace = append(st.Trace, "cancel()")
 	return true
 }
 
@@ -500,8 +543,25 @@ func (x *Exec) ownedChans(st *State, heap map[string]*Term) []*Term {
 
 // ---- channels ----
 
+// chanKind recognises channels produced by calls whose behaviour is assumed: context Done channels
+// (close-only; closed exactly when the context is cancelled) and timer channels (one value, never closed).
+func chanKind(v ssa.Value) string {
+	if c, ok := v.(*ssa.Call); ok {
+		if c.Call.IsInvoke() && c.Call.Method.Name() == "Done" && typeName(c.Call.Value.Type()) == "context.Context" {
+			return "ctxdone"
+		}
+		if sc := c.Call.StaticCallee(); sc != nil && sc.String() == "time.After" {
+			return "timer"
+		}
+	}
+	return ""
+}
+
 func (x *Exec) recv(st *State, fr *Frame, i *ssa.UnOp, ch *Val) {
 	ap := accessPath(i.X)
+	if k := chanKind(i.X); k != "" {
+		ap = k
+	}
 	if ap == "" {
 		ap = "chan"
 	}
@@ -509,7 +569,10 @@ func (x *Exec) recv(st *State, fr *Frame, i *ssa.UnOp, ch *Val) {
 	x.interfere(st, "recv "+ap)
 	st.Assume(Neq(ch.Term, IntLit(0))) // a nil channel blocks forever
 	et := i.X.Type().Underlying().(*types.Chan).Elem()
-	noSend := x.V.noSendChan(x, ap)
+	noSend := x.V.noSendChan(x, ap) || ap == "ctxdone"
+	if ap == "ctxdone" || ap == "timer" {
+		x.note("ASSUMED: ctx.Done() channels are close-only and closed exactly when the context ends; time.After channels deliver one value and are never closed")
+	}
 	mkRes := func(s *State, v *Val, ok *Term) {
 		f := s.Top()
 		if i.CommaOk {
@@ -526,9 +589,27 @@ func (x *Exec) recv(st *State, fr *Frame, i *ssa.UnOp, ch *Val) {
 		x.logRecv(vs, ap, v)
 		mkRes(vs, v, True)
 	}
+	if x.neverClosed(ap) || ap == "timer" {
+		st.Done = true
+		st.ExitKind = "blocked"
+		return
+	}
 	st.Assume(st.closed(ch.Term))
 	st.Trace = append(st.Trace, "recv "+ap+": closed")
 	mkRes(st, zeroVal(et), False)
+}
+
+func (x *Exec) neverClosed(ap string) bool {
+	if x.FC == nil {
+		return false
+	}
+	for _, cl := range x.FC.Of("ghost") {
+		if cl.Text == "neverclosed "+ap {
+			x.note("ASSUMED: channel " + ap + " is never closed")
+			return true
+		}
+	}
+	return false
 }
 
 func (x *Exec) logRecv(st *State, ap string, v *Val) {
@@ -617,12 +698,26 @@ func (x *Exec) selectStmt(st *State, fr *Frame, i *ssa.Select) {
 	for ci, c := range i.States {
 		ch := x.val(st, fr, c.Chan)
 		ap := accessPath(c.Chan)
+		if k := chanKind(c.Chan); k != "" {
+			ap = k
+			x.note("ASSUMED: ctx.Done() channels are close-only and closed exactly when the context ends; time.After channels deliver one value and are never closed")
+		}
 		if ap == "" {
 			ap = fmt.Sprintf("case%d", ci)
 		}
 		if c.Dir == types.RecvOnly {
 			et := c.Chan.Type().Underlying().(*types.Chan).Elem()
-			if !x.V.noSendChan(x, ap) {
+			if ap == "timer" {
+				s1 := st.Clone()
+				v := freshVal(et, "tick")
+				x.logRecv(s1, ap, v)
+				s1.Trace = append(s1.Trace, fmt.Sprintf("select#%d: timer fired", k))
+				build(s1, ci, ri, v, True)
+				states = append(states, s1)
+				ri++
+				continue
+			}
+			if !x.V.noSendChan(x, ap) && ap != "ctxdone" {
 				s1 := st.Clone()
 				s1.Assume(Neq(ch.Term, IntLit(0)))
 				v := freshVal(et, "recv$"+sanitize(ap))
